@@ -315,21 +315,23 @@ Definition c07_min_list (l : list Z) : Z :=
 
 Definition c07_standardize (v : c07_var) : option table :=
   let start := c07_dict_get c07_s_start_index (cv_attrs v) in
+  (* convert to zero-based indices, padding left untouched (always, since /repo 22d18b4c) *)
   let shift (t : table) : table :=
     let s := match start with
              | Some (C07_ANum s) => s
-             | _ => c07_min_list (concat t)             (* new_conn.min(), fill included *)
+             | _ => c07_min_list (filter (fun x => negb (x =? FILL)) (concat t))
+                                                        (* new_conn[real_mask].min(), if any *)
              end in
     map (map (fun x => if x =? FILL then x else x - s)) t in
   match cv_data v with
   | C07_DInt t =>
       match c07_dict_get c07_s_fillvalue (cv_attrs v) with
       | Some (C07_ANum fv) =>
-          if fv =? FILL then Some t                         (* already standard: untouched *)
+          if fv =? FILL then Some (shift t)                 (* standard dtype and fill: conn.copy() *)
           else Some (shift (map (map (fun x => if x =? fv then FILL else x)) t))
       | _ => Some (shift t)                                 (* original_fv = None <> FILL *)
       end
-  | C07_DNaN t =>                                           (* float dtype: always rewritten *)
+  | C07_DNaN t =>                                           (* float dtype: fill replaced, cast *)
       match c07_dict_get c07_s_fillvalue (cv_attrs v) with
       | Some (C07_ANum fv) =>
           Some (shift (map (map (fun x => match x with
